@@ -131,6 +131,7 @@ def run(ck):
     c15.remainder_sent(ck, prog)
     c15.foldable_rule(ck, prog)
     degree_bound_rule(ck, prog)
+    c17.periodic_point_rule(ck, prog)
     cols_rule(ck, prog)
     from . import width
     width.run(ck, prog)   # a proof of an ordinary legal configuration survives serialization: no length prefix truncates
